@@ -131,6 +131,13 @@ class SyncInterpreter(BaseInterpreter[TContext, TEvent]):
         # ⚙️ Initialize synchronous-specific attributes
         self._event_queue: Deque[Union[Event, DoneEvent, AfterEvent]] = deque()
         self._is_processing: bool = False
+        #: Identities of QUEUED events that were enqueued while a drain was in
+        #: flight (the `raise` built-in, `done.state.*`, a `send()` made by an
+        #: action or by a timer thread meanwhile). Only these count towards -
+        #: and are discarded by - the runaway bound of `_process_event_queue`;
+        #: an event accepted from outside never is. The marks outlive a drain
+        #: that ended with an error, so what it left queued stays bounded.
+        self._raised_in_drain: Set[int] = set()
         self._after_threads: Dict[str, threading.Thread] = {}
         self._after_events: Dict[str, threading.Event] = {}
         #: Cancellation flags for pending delayed sends, released by `stop()`.
@@ -314,6 +321,8 @@ class SyncInterpreter(BaseInterpreter[TContext, TEvent]):
             return
 
         event_obj = self._prepare_event(event_or_type, **payload)
+        if self._is_processing:
+            self._raised_in_drain.add(id(event_obj))
         self._event_queue.append(event_obj)
         self._process_event_queue()
 
@@ -329,6 +338,8 @@ class SyncInterpreter(BaseInterpreter[TContext, TEvent]):
 
         for event_or_type in events:
             event_obj = self._prepare_event(event_or_type)
+            if self._is_processing:
+                self._raised_in_drain.add(id(event_obj))
             self._event_queue.append(event_obj)
 
         self._process_event_queue()
@@ -349,15 +360,14 @@ class SyncInterpreter(BaseInterpreter[TContext, TEvent]):
         #    path, leaving this loop unbounded: `send()` never returned, with
         #    no timeout and no way to interrupt it. The same ceiling now
         #    applies to both paths.
-        processed = 0
+        chained = 0
         limit = getattr(self.machine, "max_iterations", 1000)
-        # 📬 Events already queued when the drain starts were accepted from
-        #    outside (a `send_events()` burst, or events left behind by a
-        #    `send()` that raised): they are not a runaway chain and do not
-        #    count towards the ceiling - only what is enqueued while draining
-        #    does. Counting them discarded the tail of any burst longer than
-        #    `max_iterations`.
-        budget = limit + len(self._event_queue)
+        # 📬 The ceiling measures what the machine enqueues WHILE it drains
+        #    (marked in `send()` / `send_events()`), never the events accepted
+        #    from outside: a `send_events()` burst longer than `max_iterations`
+        #    used to lose its tail although nothing was running away. Breaking
+        #    the chain discards the marked events only; the external ones stay
+        #    queued, in order, and are processed.
         try:
             while self._event_queue:
                 # 🏁 A machine that has completed, failed or been stopped
@@ -366,21 +376,33 @@ class SyncInterpreter(BaseInterpreter[TContext, TEvent]):
                 #    later ones (and as the async run loop does).
                 if self.status != "running":
                     self._event_queue.clear()
+                    self._raised_in_drain.clear()
                     break
-                processed += 1
-                if processed > budget:
-                    logger.error(
-                        "🛑 Exceeded %d queued events in a single macrostep on "
-                        "'%s'. This usually means an action raises the event "
-                        "that triggers it. Discarding %d pending event(s).",
-                        limit,
-                        self.id,
-                        len(self._event_queue),
-                    )
-                    self._event_queue.clear()
-                    break
+                if id(self._event_queue[0]) in self._raised_in_drain:
+                    chained += 1
+                    if chained > limit:
+                        kept = [
+                            queued
+                            for queued in self._event_queue
+                            if id(queued) not in self._raised_in_drain
+                        ]
+                        logger.error(
+                            "🛑 Exceeded %d queued events in a single "
+                            "macrostep on '%s'. This usually means an action "
+                            "raises the event that triggers it. Discarding %d "
+                            "pending event(s).",
+                            limit,
+                            self.id,
+                            len(self._event_queue) - len(kept),
+                        )
+                        self._event_queue.clear()
+                        self._event_queue.extend(kept)
+                        self._raised_in_drain.clear()
+                        chained = 0
+                        continue
 
                 current_event = self._event_queue.popleft()
+                self._raised_in_drain.discard(id(current_event))
                 logger.info("⚙️ Processing event: '%s'", current_event.type)
 
                 for plugin in self._plugins:
